@@ -1,3 +1,44 @@
-(* C08/Props.v -- property theorems only. *)
+(* C08/Props.v -- property theorems only; each is closed by [exact] of a lemma from
+   C08/Proofs*.v and followed by Print Assumptions.
+
+   Objects (C08/Model.v, tied to /repo by the correspondence of harness/c08.py):
+     fexpr          functional expression trees, one constructor per Functional class
+     value e w x    e(x) on the space with weights w  (Ok (EFin v | EPInf | EJunk) | Err exception)
+     cconj w e      the tree that e.convex_conj builds (Err = the exception it raises)
+     prox / grad    e.proximal(sigma)(x), e.gradient(x)
+   [wf n e] (C08/Rules.v) are the side conditions under which the library's rules are meant
+   to hold: LeftScalarMult s > 0, RightScalarMult s <> 0, RightVectorMult entries <> 0,
+   QuadraticPerturb a >= 0, Huber gamma > 0, QuadraticForm scaling > 0, vectors of length n,
+   and no affine QuadraticPerturb (c <> 0) of a functional flagged linear.
+   [sqrtf] is np.sqrt: any function with the defining property of the square root. *)
 From Coq Require Import Reals List Bool.
-From Verif Require Import Base.Num Base.Vec Base.VecR C08.Model C08.Proofs.
+From Verif Require Import Base.Num Base.Vec Base.VecR C08.Model C08.VecLemmas C08.Rules C08.Proofs.
+Import ListNotations.
+Local Open Scope R_scope.
+
+(* T1  Fenchel-Young for EVERY expression tree (all depths), every dimension n, all positive
+   weights, all x, y: whenever the library can evaluate f(x) and f.convex_conj(y),
+       f(x) + f.convex_conj(y) >= <x, y>_w
+   ([fy a b r] reads a + b >= r on extended values; it is False for -inf/nan, so the theorem
+   also says that these never occur).  The conjugate tree e' is the one the rules of
+   FunctionalLeftScalarMult / RightScalarMult / RightVectorMult / ScalarSum / Translation /
+   QuadraticPerturb / InfimalConvolution / BregmanDistance / DefaultConvexConjugate /
+   SeparableSum and the built-in pairs L1<->ball_inf, L2<->ball_2, Linf<->ball_1, L2^2,
+   Constant<->IndicatorZero, Huber, QuadraticForm(scaling) construct. *)
+Theorem fenchel_young :
+  forall (sqrtf : R -> R), (forall a, 0 <= a -> 0 <= sqrtf a /\ sqrtf a * sqrtf a = a) ->
+  forall (e e' : fxR) (n : nat) (w x y : list R) (vx vy : extR),
+  wf n e -> wpos w -> length w = n -> length x = n -> length y = n ->
+  value sqrtf 0 e w x = Ok vx -> cconj w e = Ok e' -> value sqrtf 0 e' w y = Ok vy ->
+  fy vx vy (wdot w x y).
+Proof. exact fenchel_young_tree. Qed.
+Print Assumptions fenchel_young.
+
+(* non-vacuity: the premises hold for the real square root and a depth-3 tree *)
+Example sqrt_instance : forall a, 0 <= a -> 0 <= sqrt a /\ sqrt a * sqrt a = a.
+Proof. exact Rsqrt_spec. Qed.
+Example wf_example :
+  let e : fxR := FLeft 2 (FTransl (FSep2 1 (FHuber 1) (FRight (-3) (FLp P2))) [1; 0; 2]) in
+  wf 3 e /\ (exists vx, value sqrt 0 e [1; 2; 2] [0; 1; 1] = Ok vx)
+  /\ (exists e' vy, cconj [1; 2; 2] e = Ok e' /\ value sqrt 0 e' [1; 2; 2] [1; 0; 0] = Ok vy).
+Proof. exact wf_example_proof. Qed.
